@@ -120,12 +120,12 @@ def _check_view(workers, label):
     return None
 
 
-def h_step(n, a0, a1, a2, a3, a4, a5, op, idx, c0, c1, c2, c3, c4, c5):
+def h_step(n, a0, a1, a2, a3, a4, a5, op, idx, c0, c1, c2, c3, c4, c5, pruned=0):
     with notrace():
-        return _h_step(n, a0, a1, a2, a3, a4, a5, op, idx, c0, c1, c2, c3, c4, c5)
+        return _h_step(n, a0, a1, a2, a3, a4, a5, op, idx, c0, c1, c2, c3, c4, c5, pruned)
 
 
-def _h_step(n, a0, a1, a2, a3, a4, a5, op, idx, c0, c1, c2, c3, c4, c5):
+def _h_step(n, a0, a1, a2, a3, a4, a5, op, idx, c0, c1, c2, c3, c4, c5, pruned):
     _reset()
     n, op = conc(n, MAXN + 1), conc(op, 8)
     if op in (4, 5):
@@ -142,6 +142,10 @@ def _h_step(n, a0, a1, a2, a3, a4, a5, op, idx, c0, c1, c2, c3, c4, c5):
         if sym_eq(alive[i], 0):
             workers[i]._alive = False
             ndead += 1
+    if ndead and sym_eq(pruned, 1):
+        # an earlier active_children() call has already dropped the dead workers from the registry (reachable pre-state)
+        list(Worker.active_children())
+        ev("pruned")
     interesting = ndead > 0
     ev("n", n, "op", op)
     if op == 0:
@@ -184,7 +188,7 @@ def _h_step(n, a0, a1, a2, a3, a4, a5, op, idx, c0, c1, c2, c3, c4, c5):
 
 
 _params = OrderedDict([("n", (0, MAXN))] + [("a%d" % i, (0, 1)) for i in range(MAXN)] +
-                      [("op", (0, 7)), ("idx", (0, MAXN - 1))] + [("c%d" % i, (0, 1)) for i in range(MAXN)])
+                      [("op", (0, 7)), ("idx", (0, MAXN - 1))] + [("c%d" % i, (0, 1)) for i in range(MAXN)] + [("pruned", (0, 1))])
 
 
 def _fix_unused(n):
@@ -316,9 +320,10 @@ def h_conc(n, a0, a1, a2, a3, j, bop):
                 if bop_ == 0:
                     created.append(CW(True, run=True))
                 elif workers:
+                    # a persistent worker is restarted by the other thread (restart re-runs __init__ with _is_restart=True)
                     w = workers[0]
-                    w._alive = True          # a dead persistent worker coming back through restart() is not re-registered:
-                    created.append(None)     # only meaningful if it was still registered; kept for the thorough tier
+                    Worker.__init__(w, _noop, run=True, _is_restart=True)
+                    w._alive = True
             b = s.spawn(other, "other-thread")
             b.priority = 1                   # runs only when the main actor yields or blocks
             ev("conc", n_, j_, bop_)
